@@ -24,7 +24,7 @@ def configs(ctx):
 
 
 def shifts(ctx):
-    if ctx.tier == "thorough":
+    if True:      # with the proved stepping-stone lemmas a shift costs ~10 s: all 64 in both tiers
         return list(range(64))
     must = [0, 1, 31, 32, 62, 63]
     rng = __import__("random").Random(ctx.seed)
@@ -49,12 +49,40 @@ def cases(ctx):
             out.append({"id": "K3|i128_shifted_div_mod_floor|k=%d|signs=%s" % (k, sg), "kind": "K3b", "k": k, "signs": sg, "weight": 20})
     for mode in range(8):
         for sg in SIGNS2:
-            ps = range(1, 39) if ctx.tier == "thorough" else [1, 2, 18, 19, 37, 38]
+            ps = range(1, 39) if ctx.tier == "thorough" else [1, 2, 3, 17, 18, 19, 20, 36, 37, 38]
             for p in ps:
                 out.append({"id": "K4|i128_mul_div_ten_pow_rounded|mode=%d|p=%d|signs=%s" % (mode, p, sg), "kind": "K4a", "mode": mode, "p": p, "signs": sg, "weight": 10})
-            ks = range(0, 39) if ctx.tier == "thorough" else [0, 1, 18, 19, 37, 38]
+            ks = range(0, 39) if ctx.tier == "thorough" else [0, 1, 2, 17, 18, 19, 20, 36, 37, 38]
             for k in ks:
                 out.append({"id": "K4|i128_shifted_div_rounded|mode=%d|k=%d|signs=%s" % (mode, k, sg), "kind": "K4b", "mode": mode, "k": k, "signs": sg, "weight": 20})
+    return out
+
+
+def knuth_lemmas(ex, st, fr):
+    """stepping stones for the Knuth division proof; each is PROVED from the path constraints before it
+    is assumed (Executor.apply_lemmas), so they cannot make a wrong kernel pass"""
+    g = lambda n: ex.local_by_name(st, fr, n).t
+    B = 1 << 64
+    y, yn1, yn0 = g("y"), g("yn1"), g("yn0")
+    xn32, xn1, xn0 = g("xn32"), g("xn1"), g("xn0")
+    q1, rhat = g("q1"), g("rhat")
+    out = []
+    try:
+        q0 = g("q0")
+        t = g("t")
+    except Exception:
+        q0 = None
+    if q0 is None:
+        out.append(("L1a: q1*yn1 + rhat = xn32", T.I(q1) * yn1 + rhat == xn32))
+        out.append(("L1b: q1 < 2^64", T.I(q1) < B))
+        out.append(("L1c: q1*y <= xn32*2^64 + xn1", T.I(q1) * y <= T.I(xn32) * B + xn1))
+        out.append(("L1d: xn32*2^64 + xn1 - q1*y < y", T.I(xn32) * B + xn1 - T.I(q1) * y < y))
+    else:
+        out.append(("L2t: t = xn32*2^64 + xn1 - q1*y", T.I(t) == T.I(xn32) * B + xn1 - T.I(q1) * y))
+        out.append(("L2a: q0*yn1 + rhat = t", T.I(q0) * yn1 + rhat == t))
+        out.append(("L2b: q0 < 2^64", T.I(q0) < B))
+        out.append(("L2c: q0*y <= t*2^64 + xn0", T.I(q0) * y <= T.I(t) * B + xn0))
+        out.append(("L2d: t*2^64 + xn0 - q0*y < y", T.I(t) * B + xn0 - T.I(q0) * y < y))
     return out
 
 
@@ -133,8 +161,13 @@ def run_case(ctx, case):
             contracts["u256_idiv_u128_special"] = K.c_u256_idiv_u128_special
         a, b = cells(st, xh, xl)
         ex = new_executor(ctx, prog, contracts=contracts, merge_fns=merge, unwind=unwind)
+        if kind == "K2b":
+            ex.lemma_hooks["u256_idiv_u128_special"] = knuth_lemmas
         outs = ex.explore(start_state(f, [a, b, y], st=st))
         res.absorb(ex, outs)
+        if ex.lemma_log:
+            res.d.setdefault("lemmas", []).extend(ex.lemma_log)
+            res.sample({"vc": case["id"], "lemmas": ex.lemma_log})
         for i, o in enumerate(outs):
             if o.kind == "return":
                 qh = o.state.heap[("cell", "xh")].t
@@ -145,8 +178,12 @@ def run_case(ctx, case):
             else:
                 goal = False     # no panic (overflow, unwinding bound, debug_assert) may be reachable
             r_ = res.vc(ctx, "%s|path%d:%s" % (case["id"], i, o.kind if o.kind == "return" else panic_class(o)),
-                        o.state.constraints(), goal, {"xh": xh.t, "xl": xl.t, "y": y.t}, {"kind": kind}, tmo)
+                        o.state.pruned_constraints(goal), goal, {"xh": xh.t, "xl": xl.t, "y": y.t}, {"kind": kind}, tmo)
             res.sample({"vc": case["id"], "path": i, "status": r_.status, "time_s": round(r_.time, 2)})
+            if o.kind == "return" and kind == "K2b":
+                sh = case["shift"]
+                yv = (1 << (127 - sh)) + 12345678901234567890 % (1 << (127 - sh))
+                res.witness(ctx, case["id"], o.state.constraints(), [(xh.t, yv - 1), (xl.t, (1 << 128) - 1), (y.t, yv)])
         return res.done()
     if kind in ("K3a", "K3b"):
         st = State()
